@@ -35,7 +35,8 @@ def run(ctx):
     vlib.import_pymwp()
     n = ctx.n(140, 1500)
     progs = streams.programs(ctx, n, max_sites=ctx.n(5, 6))
-    progs += streams.focused(ctx, ctx.n(60, 500), "pair-cycle") + streams.focused(ctx, ctx.n(20, 200), "branch-accumulate")
+    progs += (streams.focused(ctx, ctx.n(60, 500), "pair-cycle") + streams.focused(ctx, ctx.n(20, 200), "branch-accumulate") +
+              streams.focused(ctx, ctx.n(20, 200), "for-accumulate"))
     failing, mism = [], []
     recs, coq_cases, calc_cases = [], [], []
     outcome = {}
